@@ -19,9 +19,8 @@ prop('C01',
      kani=['vk_year_flags_table', 'vk_year_flags_derived', 'vk_mdf_tables', 'vk_mdf_from_ol_with', 'vk_date_bits', 'vk_date_consts',
            'vk_date_from_ordinal_and_flags', 'vk_date_from_yo_opt', 'vk_date_from_ymd_opt', 'vk_date_accessors', 'vk_date_weekday',
            'vk_date_forms_unique', 'vk_date_iso_week', 'vk_date_isoywd_sound', 'vk_date_isoywd_complete', 'vk_isoweek_ord',
-           'vk_date_succ_pred', 'vk_date_ord_lex', 'vk_date_quarter_ce_dim'],
-     uncovered=['deprecated panicking constructors from_ymd/from_yo/from_isoywd/from_num_days_from_ce/succ/pred (expect wrappers)',
-                'Date<Tz> (deprecated)', 'Datelike::num_days_from_ce provided method for types other than NaiveDate'],
+           'vk_date_succ_pred', 'vk_date_ord_lex', 'vk_date_quarter_ce_dim', 'vk_date_deprecated_ctors'],
+     uncovered=['Date<Tz> (deprecated)', 'Datelike::num_days_from_ce provided method for types other than NaiveDate'],
      text='Kani proves, over full i32/u32 argument domains and every valid packed date, the bit-packed/table kernel '
           '(YEAR_TO_FLAGS, MDL_TO_OL, OL_TO_MDL, from_ymd_opt, from_yo_opt, from_isoywd_opt both directions, accessors, weekday, iso_week, '
           'succ/pred, derived Ord) against an independent proleptic-Gregorian spec; Verus proves the day-count arithmetic '
@@ -57,7 +56,7 @@ prop('C07',
      title='Time-of-day arithmetic wraps by whole days and honours leap-second operands',
      verus=['time', 'datetime'],
      twin=['time', 'datetime'],
-     uncovered=['deprecated panicking constructors from_hms* (expect wrappers)'],
+     uncovered=[],
      text='Verus proves every NaiveTime constructor (accepted exactly for h<24, m<60, s<60, nano<1e9 or <2e9 on second 59), accessor, single-field replacement, '
           'overflowing_add_signed/sub_signed against the documented leap-line model (stay in / leave / skip the leap second as if it were the only one), '
           'signed_duration_since on the joint leap line (antisymmetric), offset shifts, and the date-time forms with the carry applied to the date.')
@@ -119,12 +118,11 @@ prop('C08',
      kani=['vk_date_with_month', 'vk_date_with_day', 'vk_date_with_ordinal', 'vk_date_with_year', 'vk_date_add_months', 'vk_date_sub_months',
            'vk_date_weekday_of_month', 'vk_date_years_since', 'vk_date_quarter_ce_dim', 'vk_month_num_days',
            'vk_ndt_accessors', 'vk_ndt_with_date_fields', 'vk_ndt_with_time_fields', 'vk_ndt_months', 'vk_mdf_from_ol_with', 'vk_dt_map_local_any_zone',
-           'vk_dt_with_year_any_zone', 'vk_dt_with_month_day_any_zone', 'vk_dt_with_day0_ordinal_any_zone', 'vk_dt_with_clock_any_zone', 'vk_dt_months_any_zone', 'vk_dt_days_any_zone', 'vk_dt_with_time_any_zone_light'],
+           'vk_dt_with_year_any_zone', 'vk_dt_with_month_day_any_zone', 'vk_dt_with_day0_ordinal_any_zone', 'vk_dt_with_clock_any_zone', 'vk_dt_months_any_zone', 'vk_dt_days_any_zone', 'vk_dt_with_time_any_zone_light', 'vk_dt_years_since', 'vk_week_checked_days'],
      kani_thorough=['vk_dt_with_time_any_zone'],
      kani_timeout=3000,
      twin=['week', 'zoned'],
-     uncovered=[                'NaiveWeek::checked_days / days (RangeInclusive construction from the two proved ends)',
-                'DateTime::years_since'],
+     uncovered=[],
      text='Kani proves, for every valid date and every u32/i32 replacement value, with_year/month/month0/day/day0/ordinal/ordinal0 (exactly the named field changes, '
           'None exactly when no such date exists), checked_add/sub_months (year-month moves by N, day clamped, fails only out of range, Months(0) identity), '
           'from_weekday_of_month_opt, years_since, quarter, year_ce, num_days_in_month, weeks_from, Month::num_days, and the NaiveDateTime forms (other part kept). '
